@@ -888,6 +888,38 @@ def eventauth_membershipAllower_membershipFailed : List String := [
   "return errorf(\"%q is not allowed to change the membership of %q from %q to %q as \"+format, append([]interface{}{m.senderID, m.targetID, m.oldMember.Membership, m.newMember.Membership}, args...)...)"
 ]
 
+def eventauth_type_AuthEventProvider : List String := [
+  "type AuthEventProvider interface { Create() (PDU, error) JoinRules() (PDU, error) PowerLevels() (PDU, error) Member(stateKey spec.SenderID) (PDU, error) ThirdPartyInvite(stateKey string) (PDU, error) Valid() bool }"
+]
+
+def eventauth_type_AuthEvents : List String := [
+  "type AuthEvents struct { events map[StateKeyTuple]PDU roomIDs map[string]struct{} }"
+]
+
+def eventauth_type_NotAllowed : List String := [
+  "type NotAllowed struct{ Message string }"
+]
+
+def eventauth_type_StateNeeded : List String := [
+  "type StateNeeded struct { Create bool JoinRules bool PowerLevels bool Member []string ThirdPartyInvite []string }"
+]
+
+def eventauth_type_allowerContext : List String := [
+  "type allowerContext struct { provider AuthEventProvider userIDQuerier spec.UserIDForSender createEvent PDU powerLevelsEvent PDU joinRuleEvent PDU create CreateContent creators []string privilegedCreators bool powerLevels PowerLevelContent joinRule JoinRuleContent powerLevelsErr error roomID spec.RoomID }"
+]
+
+def eventauth_type_eventAllower : List String := [
+  "type eventAllower struct { *allowerContext member MemberContent }"
+]
+
+def eventauth_type_membershipAllower : List String := [
+  "type membershipAllower struct { *allowerContext roomVersionImpl IRoomVersion thirdPartyInvite ThirdPartyInviteContent targetID string senderID string senderMember MemberContent oldMember MemberContent newMember MemberContent joinRule JoinRuleContent }"
+]
+
+def eventauth_type_membershipContent : List String := [
+  "type membershipContent struct { Membership string `json:\"membership\"` ThirdPartyInvite *MemberThirdPartyInvite `json:\"third_party_invite,omitempty\"` AuthorizedVia string `json:\"join_authorised_via_users_server,omitempty\"` MXIDMapping *MXIDMapping `json:\"mxid_mapping,omitempty\"` }"
+]
+
 def eventcontent_CreateContent_DomainAllowed : List String := [
   "func func(domain string) error",
   "if domain == c.senderDomain {",
@@ -1298,6 +1330,78 @@ def eventcontent_notNullLevels_UnmarshalJSON : List String := [
   "return nil"
 ]
 
-def functions : List String := ["eventauth.go:AuthEvents.AddEvent", "eventauth.go:AuthEvents.Clear", "eventauth.go:AuthEvents.Create", "eventauth.go:AuthEvents.JoinRules", "eventauth.go:AuthEvents.Member", "eventauth.go:AuthEvents.PowerLevels", "eventauth.go:AuthEvents.ThirdPartyInvite", "eventauth.go:AuthEvents.Valid", "eventauth.go:NotAllowed.Error", "eventauth.go:StateNeeded.AuthEventReferences", "eventauth.go:StateNeeded.Tuples", "eventauth.go:.Allowed", "eventauth.go:.NewAuthEvents", "eventauth.go:.StateNeededForAuth", "eventauth.go:.StateNeededForProtoEvent", "eventauth.go:.accumulateStateNeeded", "eventauth.go:.allowRestrictedJoins", "eventauth.go:.checkEventLevels", "eventauth.go:.checkKnocking", "eventauth.go:.checkNotificationLevels", "eventauth.go:.checkPowerLevelEventV1", "eventauth.go:.checkPowerLevelEventV2", "eventauth.go:.checkPowerLevelEventV3", "eventauth.go:.checkUserLevels", "eventauth.go:.disallowKnocking", "eventauth.go:.disallowRestrictedJoins", "eventauth.go:.errorf", "eventauth.go:.newAllowerContext", "eventauth.go:.thirdPartyInviteToken", "eventauth.go:allowerContext.aliasEventAllowed", "eventauth.go:allowerContext.allowed", "eventauth.go:allowerContext.createEventAllowed", "eventauth.go:allowerContext.defaultEventAllowed", "eventauth.go:allowerContext.memberEventAllowed", "eventauth.go:allowerContext.newEventAllower", "eventauth.go:allowerContext.newMembershipAllower", "eventauth.go:allowerContext.powerLevelsEventAllowed", "eventauth.go:allowerContext.redactEventAllowed", "eventauth.go:allowerContext.resetCreate", "eventauth.go:allowerContext.update", "eventauth.go:allowerContext.userPowerLevel", "eventauth.go:eventAllower.commonChecks", "eventauth.go:membershipAllower.membershipAllowed", "eventauth.go:membershipAllower.membershipAllowedFromThirdPartyInvite", "eventauth.go:membershipAllower.membershipAllowedOther", "eventauth.go:membershipAllower.membershipAllowedSelf", "eventauth.go:membershipAllower.membershipAllowedSelfForRestrictedJoin", "eventauth.go:membershipAllower.membershipFailed", "eventcontent.go:CreateContent.DomainAllowed", "eventcontent.go:CreateContent.UserIDAllowed", "eventcontent.go:HistoryVisibility.Scan", "eventcontent.go:HistoryVisibility.Value", "eventcontent.go:MXIDMapping.Sign", "eventcontent.go:PowerLevelContent.Defaults", "eventcontent.go:PowerLevelContent.EventLevel", "eventcontent.go:PowerLevelContent.NotificationLevel", "eventcontent.go:PowerLevelContent.UserLevel", "eventcontent.go:.CreatorsFromCreateEvent", "eventcontent.go:.NewCreateContentFromAuthEvents", "eventcontent.go:.NewJoinRuleContentFromAuthEvents", "eventcontent.go:.NewMemberContentFromAuthEvents", "eventcontent.go:.NewMemberContentFromEvent", "eventcontent.go:.NewPowerLevelContentFromAuthEvents", "eventcontent.go:.NewPowerLevelContentFromEvent", "eventcontent.go:.NewThirdPartyInviteContentFromAuthEvents", "eventcontent.go:.checkCreateEventV1", "eventcontent.go:.checkCreateEventV2", "eventcontent.go:.checkCreateEventV3", "eventcontent.go:.domainFromID", "eventcontent.go:.isValidUserID", "eventcontent.go:.parseIntegerPowerLevels", "eventcontent.go:.parsePowerLevels", "eventcontent.go:levelJSONValue.UnmarshalJSON", "eventcontent.go:levelJSONValue.assignIfExists", "eventcontent.go:notNullLevel.UnmarshalJSON", "eventcontent.go:notNullLevels.UnmarshalJSON"]
+def eventcontent_type_CreateContent : List String := [
+  "type CreateContent struct { senderDomain string roomID string eventID string Federate *bool `json:\"m.federate,omitempty\"` Creator string `json:\"creator\"` RoomVersion *RoomVersion `json:\"room_version,omitempty\"` Predecessor *PreviousRoom `json:\"predecessor,omitempty\"` RoomType string `json:\"type,omitempty\"` AdditionalCreators []string `json:\"additional_creators,omitempty\"` }"
+]
+
+def eventcontent_type_HistoryVisibility : List String := [
+  "type HistoryVisibility string"
+]
+
+def eventcontent_type_HistoryVisibilityContent : List String := [
+  "type HistoryVisibilityContent struct { HistoryVisibility HistoryVisibility `json:\"history_visibility\"` }"
+]
+
+def eventcontent_type_JoinRuleContent : List String := [
+  "type JoinRuleContent struct { JoinRule string `json:\"join_rule\"` Allow []JoinRuleContentAllowRule `json:\"allow,omitempty\"` }"
+]
+
+def eventcontent_type_JoinRuleContentAllowRule : List String := [
+  "type JoinRuleContentAllowRule struct { Type string `json:\"type\"` RoomID string `json:\"room_id\"` }"
+]
+
+def eventcontent_type_MXIDMapping : List String := [
+  "type MXIDMapping struct { UserRoomKey spec.SenderID `json:\"user_room_key\"` UserID string `json:\"user_id\"` Signatures map[spec.ServerName]map[KeyID]spec.Base64Bytes `json:\"signatures,omitempty\"` }"
+]
+
+def eventcontent_type_MemberContent : List String := [
+  "type MemberContent struct { Membership string `json:\"membership\"` DisplayName string `json:\"displayname,omitempty\"` AvatarURL string `json:\"avatar_url,omitempty\"` Reason string `json:\"reason,omitempty\"` IsDirect bool `json:\"is_direct,omitempty\"` ThirdPartyInvite *MemberThirdPartyInvite `json:\"third_party_invite,omitempty\"` AuthorisedVia string `json:\"join_authorised_via_users_server,omitempty\"` MXIDMapping *MXIDMapping `json:\"mxid_mapping,omitempty\"` }"
+]
+
+def eventcontent_type_MemberThirdPartyInvite : List String := [
+  "type MemberThirdPartyInvite struct { DisplayName string `json:\"display_name\"` Signed MemberThirdPartyInviteSigned `json:\"signed\"` }"
+]
+
+def eventcontent_type_MemberThirdPartyInviteSigned : List String := [
+  "type MemberThirdPartyInviteSigned struct { MXID string `json:\"mxid\"` Signatures map[string]map[string]string `json:\"signatures\"` Token string `json:\"token\"` }"
+]
+
+def eventcontent_type_PowerLevelContent : List String := [
+  "type PowerLevelContent struct { Ban int64 `json:\"ban\"` Invite int64 `json:\"invite\"` Kick int64 `json:\"kick\"` Redact int64 `json:\"redact\"` Users map[string]int64 `json:\"users\"` UsersDefault int64 `json:\"users_default\"` Events map[string]int64 `json:\"events\"` EventsDefault int64 `json:\"events_default\"` StateDefault int64 `json:\"state_default\"` Notifications map[string]int64 `json:\"notifications\"` }"
+]
+
+def eventcontent_type_PreviousRoom : List String := [
+  "type PreviousRoom struct { RoomID string `json:\"room_id\"` EventID string `json:\"event_id\"` }"
+]
+
+def eventcontent_type_PublicKey : List String := [
+  "type PublicKey struct { PublicKey spec.Base64Bytes `json:\"public_key\"` KeyValidityURL string `json:\"key_validity_url\"` }"
+]
+
+def eventcontent_type_RelatesTo : List String := [
+  "type RelatesTo struct { EventID string `json:\"event_id\"` RelationType string `json:\"rel_type\"` }"
+]
+
+def eventcontent_type_RelationContent : List String := [
+  "type RelationContent struct { Relations *RelatesTo `json:\"m.relates_to\"` }"
+]
+
+def eventcontent_type_ThirdPartyInviteContent : List String := [
+  "type ThirdPartyInviteContent struct { DisplayName string `json:\"display_name\"` KeyValidityURL string `json:\"key_validity_url\"` PublicKey string `json:\"public_key\"` PublicKeys []PublicKey `json:\"public_keys\"` }"
+]
+
+def eventcontent_type_levelJSONValue : List String := [
+  "type levelJSONValue struct { exists bool value int64 }"
+]
+
+def eventcontent_type_notNullLevel : List String := [
+  "type notNullLevel struct{}"
+]
+
+def eventcontent_type_notNullLevels : List String := [
+  "type notNullLevels struct{}"
+]
+
+def functions : List String := ["eventauth.go:AuthEvents.AddEvent", "eventauth.go:AuthEvents.Clear", "eventauth.go:AuthEvents.Create", "eventauth.go:AuthEvents.JoinRules", "eventauth.go:AuthEvents.Member", "eventauth.go:AuthEvents.PowerLevels", "eventauth.go:AuthEvents.ThirdPartyInvite", "eventauth.go:AuthEvents.Valid", "eventauth.go:NotAllowed.Error", "eventauth.go:StateNeeded.AuthEventReferences", "eventauth.go:StateNeeded.Tuples", "eventauth.go:.Allowed", "eventauth.go:.NewAuthEvents", "eventauth.go:.StateNeededForAuth", "eventauth.go:.StateNeededForProtoEvent", "eventauth.go:.accumulateStateNeeded", "eventauth.go:.allowRestrictedJoins", "eventauth.go:.checkEventLevels", "eventauth.go:.checkKnocking", "eventauth.go:.checkNotificationLevels", "eventauth.go:.checkPowerLevelEventV1", "eventauth.go:.checkPowerLevelEventV2", "eventauth.go:.checkPowerLevelEventV3", "eventauth.go:.checkUserLevels", "eventauth.go:.disallowKnocking", "eventauth.go:.disallowRestrictedJoins", "eventauth.go:.errorf", "eventauth.go:.newAllowerContext", "eventauth.go:.thirdPartyInviteToken", "eventauth.go:allowerContext.aliasEventAllowed", "eventauth.go:allowerContext.allowed", "eventauth.go:allowerContext.createEventAllowed", "eventauth.go:allowerContext.defaultEventAllowed", "eventauth.go:allowerContext.memberEventAllowed", "eventauth.go:allowerContext.newEventAllower", "eventauth.go:allowerContext.newMembershipAllower", "eventauth.go:allowerContext.powerLevelsEventAllowed", "eventauth.go:allowerContext.redactEventAllowed", "eventauth.go:allowerContext.resetCreate", "eventauth.go:allowerContext.update", "eventauth.go:allowerContext.userPowerLevel", "eventauth.go:eventAllower.commonChecks", "eventauth.go:membershipAllower.membershipAllowed", "eventauth.go:membershipAllower.membershipAllowedFromThirdPartyInvite", "eventauth.go:membershipAllower.membershipAllowedOther", "eventauth.go:membershipAllower.membershipAllowedSelf", "eventauth.go:membershipAllower.membershipAllowedSelfForRestrictedJoin", "eventauth.go:membershipAllower.membershipFailed", "eventauth.go:type AuthEventProvider", "eventauth.go:type AuthEvents", "eventauth.go:type NotAllowed", "eventauth.go:type StateNeeded", "eventauth.go:type allowerContext", "eventauth.go:type eventAllower", "eventauth.go:type membershipAllower", "eventauth.go:type membershipContent", "eventcontent.go:CreateContent.DomainAllowed", "eventcontent.go:CreateContent.UserIDAllowed", "eventcontent.go:HistoryVisibility.Scan", "eventcontent.go:HistoryVisibility.Value", "eventcontent.go:MXIDMapping.Sign", "eventcontent.go:PowerLevelContent.Defaults", "eventcontent.go:PowerLevelContent.EventLevel", "eventcontent.go:PowerLevelContent.NotificationLevel", "eventcontent.go:PowerLevelContent.UserLevel", "eventcontent.go:.CreatorsFromCreateEvent", "eventcontent.go:.NewCreateContentFromAuthEvents", "eventcontent.go:.NewJoinRuleContentFromAuthEvents", "eventcontent.go:.NewMemberContentFromAuthEvents", "eventcontent.go:.NewMemberContentFromEvent", "eventcontent.go:.NewPowerLevelContentFromAuthEvents", "eventcontent.go:.NewPowerLevelContentFromEvent", "eventcontent.go:.NewThirdPartyInviteContentFromAuthEvents", "eventcontent.go:.checkCreateEventV1", "eventcontent.go:.checkCreateEventV2", "eventcontent.go:.checkCreateEventV3", "eventcontent.go:.domainFromID", "eventcontent.go:.isValidUserID", "eventcontent.go:.parseIntegerPowerLevels", "eventcontent.go:.parsePowerLevels", "eventcontent.go:levelJSONValue.UnmarshalJSON", "eventcontent.go:levelJSONValue.assignIfExists", "eventcontent.go:notNullLevel.UnmarshalJSON", "eventcontent.go:notNullLevels.UnmarshalJSON", "eventcontent.go:type CreateContent", "eventcontent.go:type HistoryVisibility", "eventcontent.go:type HistoryVisibilityContent", "eventcontent.go:type JoinRuleContent", "eventcontent.go:type JoinRuleContentAllowRule", "eventcontent.go:type MXIDMapping", "eventcontent.go:type MemberContent", "eventcontent.go:type MemberThirdPartyInvite", "eventcontent.go:type MemberThirdPartyInviteSigned", "eventcontent.go:type PowerLevelContent", "eventcontent.go:type PreviousRoom", "eventcontent.go:type PublicKey", "eventcontent.go:type RelatesTo", "eventcontent.go:type RelationContent", "eventcontent.go:type ThirdPartyInviteContent", "eventcontent.go:type levelJSONValue", "eventcontent.go:type notNullLevel", "eventcontent.go:type notNullLevels"]
 
 end VPins.C07
